@@ -114,6 +114,8 @@ def check_index(ix, model, what, auto=False):
         c = lib(lambda: a in ix)
         need(not isinstance(c, Raised) and not bool(c), 'membership', 'absent %r reported as member (%r)' % (a, c))
         g = lib(ix.loc_to_iloc, a)
+        if isinstance(g, np.ndarray) and g.size == 0:
+            continue  # a datetime64 key is matched as a period: an empty selection is the "not found" answer (C04 ASSUMPTIONS)
         if not isinstance(g, Raised):
             if auto and isinstance(a, int) and a < 0:
                 # known finding: reported at the end of the case so the derivations are still explored
